@@ -2,15 +2,16 @@
 from .. import gen_tt, lang
 from ..harness import case_rng
 from ..runner import digest
-from . import common
+from . import common, assignmatrix
 
 ID = 'C02'
 LEVEL = 'exploration'
 TIERS = {
-    'quick': {'cases': 1600, 'wall': 100, 'chunk': 8},
-    'thorough': {'cases': 60000, 'wall': 1500, 'chunk': 16},
+    'quick': {'cases': 72 + 1600, 'wall': 100, 'chunk': 8},
+    'thorough': {'cases': 72 + 60000, 'wall': 1500, 'chunk': 16},
 }
-RULE = ('case i: Random(f"{seed}:C02:{i}") picks a swarm configuration and generates a program whose '
+RULE = ('cases 0..71: the ASSIGNMENT MATRIX with ?? (seed independent): `v = E(v)` / `v += E(v)` for a global, local '
+        'and parameter variable with ?? inside E in twelve shapes. Further cases: Random(f"{seed}:C02:{i}") picks a swarm configuration and generates a program whose '
         'you-functions contain 1-5 segments (try/undo and try/stop blocks - also inside loops, left by '
         'break/continue/return, with handlers that contain further tries - preempt blocks, defeat '
         'functions incl. preemptive and recursive ones, ?? with side-effecting operands, calls to '
@@ -28,7 +29,34 @@ ASSUMPTIONS = [
 ]
 
 
+AS_JOBS = assignmatrix.jobs(True)
+
+
+def as_case(k):
+    """`v = E(v)` / `v += E(v)` with ?? inside E, for global, local and parameter variables (seed independent)."""
+    job = AS_JOBS[k]
+    p, argv = assignmatrix.program(job, True)
+    W = (2, 3, 4, 8)[k % 4]
+    res = common.new_result()
+    ecfg = dict(W=W, stack=1500, max_steps=1_000_000, style_seed=None, poison_seed=None)
+    found, ev = common.problems_of(p, argv, ecfg)
+    common.add_counters(res, ev)
+    res['key'] = digest('as', *map(str, job))
+    res['nontrivial'] = ev.res is not None
+    res['counters']['assignment_matrix'] = 1
+    res['digest'] = digest(res['key'], ev.res.history if ev.res is not None else None, found)
+    if found:
+        cls, detail = found[0][:2]
+        res['violations'].append({'cls': cls, 'detail': f'assignment matrix {job}: {detail}', 'fingerprint': None,
+                                  'payload': common.payload(p, argv, ev, {'assign_job': list(job)}),
+                                  'sample': common.sample_of(p, argv, ev)})
+    return res
+
+
 def case(seed, idx, tier):
+    if idx < len(AS_JOBS):
+        return as_case(idx)
+    idx -= len(AS_JOBS)
     rnd = case_rng(seed, ID, idx)
     cfg = gen_tt.swarm_cfg_tt(rnd)
     prog, argv = gen_tt.gen_tt_program(rnd, cfg)
